@@ -581,6 +581,21 @@ def check_invariants(ctx, rep, only=None):
         known_terms = ('self.', 'key', 'val')
         foreign = sorted(a for a in asserts if a not in wanted and any(isinstance(x, ast.Name) and not x.id.startswith(('key', 'val')) and x.id != 'self' for x in ast.walk(ast.parse(a, mode='eval'))))
         rep.extra.setdefault('invariant_atoms', {})[cls.name] = sorted(asserts)
+        # ... and it rejects only what the definition rejects: an extra demand that applies a predicate to the VALUE of a
+        # state or symbol (a pattern for the names, a length ...) turns valid automata away -- the constructions that name
+        # their states after sets or pairs of states then fail on their own results.  Other extra demands are not judged.
+        for atom in sorted(set(asserts) - set(wanted)):
+            node = ast.parse(atom, mode='eval').body
+            calls = [c for c in ast.walk(node) if isinstance(c, ast.Call) and not (isinstance(c.func, ast.Name) and c.func.id in ('len', 'isinstance', 'set', 'frozenset', 'all', 'any', 'sorted', 'list', 'tuple'))
+                     and not (isinstance(c.func, ast.Attribute) and c.func.attr in ('issubset', 'issuperset', 'isdisjoint', 'keys', 'values', 'items', 'union', 'copy'))]
+            if isinstance(node, ast.Call) and isinstance(node.func, ast.Name) and node.func.id == 'isinstance':
+                continue
+            n += 1
+            if calls:
+                rep.violates(RULE + '.inv', cv, 'extra demand ' + atom, '{}._check_validity demands `{}` of every object: the formal definition places no demand on what states and symbols look like, so valid automata '
+                             '(e.g. those whose states are named after sets or pairs of states, as every construction of the library names them) are rejected'.format(cls.name, atom))
+            else:
+                rep.undecided(RULE + '.inv', cv, 'extra demand ' + atom, 'an assertion beyond the invariants of the definition; whether it follows from them is not decided')
         for atom in wanted:
             n += 1
             if atom in asserts:
@@ -743,6 +758,45 @@ def check_value_validators(ctx, rep, rule=RULE + '.sortcheck'):
                     nm, kind, '/'.join(forbidden[kind]), bad[0].name, kind, 'state label' if kind == 'symbol' else 'symbol'))
             else:
                 rep.holds(rule, m, 'def ' + m.name, 'the getter {} of a {}-valued keyword never reaches the validator of the other sort'.format(nm, kind), nontrivial=False)
+    # the single declared symbols (blank, epsilon) live in the label alphabets of the TM / PDA formats, which are wider than
+    # the pattern of INPUT symbols: the input-symbol validator must not be applied to them
+    from .. import relang
+    from .io import _eval_regex_fn
+    pats = {}
+    for g in ctx.prog.functions.values():
+        if g.parent is None and g.name.endswith('_regex') and not g.module.name.startswith('template:') and not g.pos_params:
+            pv = _eval_regex_fn(g)
+            if pv is not None:
+                pats[g.name] = pv
+    vp = pats.get('default_symbol_regex')
+    wide = None
+    if vp is not None:
+        for nm0, pv in sorted(pats.items()):
+            if 'transition' in nm0 and nm0 != 'default_transition_label_regex':
+                try:
+                    ok, wit = relang.included(pv, '(({})|,)*'.format(vp))
+                except Exception:
+                    continue
+                if not ok:
+                    wide = (nm0, pv, wit)
+                    break
+    if wide is not None:
+        for nm in ('get_symbol', 'parse_symbol'):
+            m = ctx.prog.find_method(base[0], nm)
+            if m is None:
+                continue
+            n += 1
+            reach = reachable_functions(ctx, [m])
+            hit = [g for g in reach.values() if g.name in ('_check_symbol', '_check_symbols')]
+            for g in list(reach.values()):
+                for c in ast.walk(g.node):
+                    if isinstance(c, ast.Call) and isinstance(c.func, ast.Attribute) and c.func.attr in ('_check_symbol', '_check_symbols') and u(c.func.value) == 'self':
+                        hit.append(g)
+            if hit:
+                rep.violates(rule, m, 'def ' + m.name + ' (declared blank / epsilon)', 'the getter {} of the single declared symbols (blank, epsilon) applies the validator of INPUT symbols ({}), but the label format {} ({}) admits symbols outside it '
+                             '(witness label {!r}): a description that declares such a blank, as print_tm writes it, is rejected'.format(nm, vp, wide[0], wide[1], wide[2]))
+            else:
+                rep.holds(rule, m, 'def ' + m.name + ' (declared blank / epsilon)', 'the input-symbol validator is not applied to the declared blank / epsilon, whose label alphabet is wider ({} admits {!r})'.format(wide[0], wide[2]))
     return n
 
 
